@@ -27,6 +27,7 @@ EXPLANATION = (
 EXPLANATION += ' Added after the seeded-change rounds: ' + "D5 also: an inline (lightweight) body starts only after the group's cancellation state was consulted (violated on the pinned tree: known findings); D6: for every buffer node class and every non-exempt operation kind, each call chain to an item primitive consults the reservation state first; input_node hands its cached item out only when not reserved."
 EXPLANATION += ' Added in the third session (round-3 seeds and the findings they led to): ' + 'D1 also: a batch flag of an aggregator handler is only raised while the batch is handled, and no handler touches an operation after publishing its status; D4 also: the join consumes its inputs only on the accepted edge of THIS put, every keeping sender (input, buffer, limiter, overwrite, join) offers what it keeps when a successor is registered, an edge removal tells a predecessor-counting receiver exactly once.'
 EXPLANATION += ' Added in the fourth round of seeded changes: ' + 'D1 also: where an aggregator handler of the flow graph can raise a user exception, start_handle_operations lowers handler_busy on the exceptional path as well (violated on the pinned tree: known finding); D5 also: the task a handler hands back is picked up by every operation that runs the aggregator.'
+EXPLANATION += ' Added in the fifth round: ' + "D1 also: inside the buffering node's handler an operation that clears my_reserved raises the forwarding flag before the handler advances."
 ASSUMPTIONS = ['node kinds and policies instantiated in drivers/flow.cpp', 'aggregator serialises its handler (C13-D1)']
 ND = ['exactly-once delivery over all topologies', 'no body running when wait_for_all returns (timing)',
       'async_node gateway use from foreign threads beyond the reserve/release pairing']
